@@ -18,13 +18,17 @@ META = {
                  "+ exact winding-number classification of outputs against analytic predicates",
     "text": "Coq theorems extrude_chain/extrude_closed/revolve_chain (for every list of contour sizes / axis-vertex patterns, every division count, cone or "
             "not, full or partial: indices in range and boundary chain = difference of the end contours, so with a chain-correct cap triangulation the "
-            "triangle list is closed), shape_tables_closed and tet_tables_consistent on tables regenerated from src/impl.cpp and src/sdf.cpp on every run, "
+            "triangle list is closed), extrude_scale_after_twist (the per-division 2x2 map, re-read symbolically from the source statements on every run, is "
+            "scale-after-twist as documented), shape_tables_closed and tet_tables_consistent on tables regenerated from src/impl.cpp and src/sdf.cpp on every run, "
             "encode_decode, circular_segments_spec, affine_action, flip_on_negative_det_partial, sind_cosd_exact (PrimFloat port of sind/cosd with the "
             "math::sin/cos kernels, all k in [-720,720]) and rot90_exact. The extracted models are compared with /repo's raw triVerts (captured before "
             "CreateHalfedges), GetCircularSegments and sind/cosd bit patterns on parameter sweeps. Geometry: Cube, Tetrahedron, Sphere, Cylinder, Extrude, "
             "Revolve, LevelSet and Translate/Rotate/Scale/Mirror/Transform/Warp outputs are classified with the extracted exact winding number at sample "
             "points outside the faceting band against the analytic predicate (winding 1 inside, 0 outside), volume scaling by |det|, exact 90-degree "
-            "rotations of integer meshes, InvalidConstruction for invalid arguments.",
+            "rotations of integer meshes, InvalidConstruction for invalid arguments. Parameters are drawn jointly (stratified: twist x anisotropic scale x "
+            "divisions; radiusLow x radiusHigh x center; polygon kind x partial angle x segment source; chains of 1-4 transforms) and every output vertex is "
+            "compared (1e-12) with the documented image of an input vertex (Extrude levels, Cylinder rings, Revolve slices, composed transform point maps); "
+            "Extrude slices next to each division level are classified against the exact level polygon.",
     "note": "Trusted: Coq kernel + vm_compute, primitive floats, extraction, translators (regex over the literal tables), harness macros capturing triVerts, "
             "Python evaluation of the analytic predicates and bands (floating point, 26-direction robustness test). Not proved: that the floating-point "
             "coordinates realise the analytic solid (validated on sampled points only); pushing the triangulator contract through startPoses/endPoses "
@@ -196,6 +200,46 @@ def clip_flags(poly):
     return out
 
 
+def clip_poly(poly):
+    """the clipped polygon of Manifold::Revolve (same arithmetic for the inserted axis points)"""
+    n = len(poly)
+    i = 0
+    while i < n and poly[i][0] < 0:
+        i += 1
+    if i == n:
+        return []
+    out, start = [], i
+    while True:
+        if poly[i][0] >= 0:
+            out.append(poly[i])
+        nxt = 0 if i + 1 == n else i + 1
+        if (poly[nxt][0] < 0) != (poly[i][0] < 0):
+            y = poly[nxt][1] - poly[nxt][0] * (poly[i][1] - poly[nxt][1]) / (poly[i][0] - poly[nxt][0])
+            out.append((0.0, y))
+        i = nxt
+        if i == start:
+            break
+    return out
+
+
+def match_verts(expected, got, tol):
+    """greedy one-to-one matching within tol (max norm); returns (#unmatched expected, first unmatched, #got)"""
+    used = [False] * len(got)
+    miss, first = 0, None
+    for e in expected:
+        hit = -1
+        for k, g in enumerate(got):
+            if not used[k] and abs(g[0] - e[0]) <= tol and abs(g[1] - e[1]) <= tol and abs(g[2] - e[2]) <= tol:
+                hit = k
+                break
+        if hit < 0:
+            miss += 1
+            first = first or e
+        else:
+            used[hit] = True
+    return miss, first
+
+
 def polys_text(ps):
     return "%d " % len(ps) + " ".join("%d " % len(p) + " ".join("%s %s" % (fmt(x), fmt(y)) for x, y in p) for p in ps)
 
@@ -261,7 +305,7 @@ def run_index(cx, exe, drv, rng):
             nd = c["seg"]
         else:
             radius = max([0.0] + [x for p in c["polys"] for x, _ in p])
-            nd = int(model_circ(*py_circ(radius)) * deg / 360)
+            nd = max(1, int(model_circ(*py_circ(radius)) * deg / 360))
         c["nd"], c["full"], c["flags"] = nd, full, flags
         lines.append("REV %s %d %s %s" % (c["id"], c["seg"], fmt(c["deg"]), polys_text(c["polys"])))
         if flags and nd >= 1:
@@ -436,16 +480,20 @@ def geo_cases(rng, cx):
 
     def rand_ops():
         ops = []
-        for _ in range(rng.randrange(1, 4)):
+        for _ in range(rng.randrange(1, 5)):
             k = rng.choice("TRSMXW")
             if k == "T":
                 ops.append(("T", rng.uniform(-3, 3), rng.uniform(-3, 3), rng.uniform(-3, 3)))
             elif k == "R":
-                ops.append(("R", rng.choice([0.0, 90.0, 200.0, rng.uniform(-360, 360)]), rng.uniform(-180, 180), rng.choice([135.0, 225.0, rng.uniform(-720, 720)])))
+                ops.append(("R", rng.choice([0.0, 90.0, 200.0, round(rng.uniform(-360, 360), 1), round(rng.uniform(-360, 360), 1)]), round(rng.uniform(-180, 180), 1),
+                            rng.choice([135.0, 225.0, round(rng.uniform(-720, 720), 1), round(rng.uniform(-720, 720), 1)])))
             elif k == "S":
                 ops.append(("S", rng.choice([1.0, -1.0, 2.0, 0.5]), rng.uniform(0.5, 2), rng.choice([1.0, -1.5, 3.0])))
             elif k == "M":
-                ops.append(("M", rng.choice([1.0, 0.0, 0.3]), rng.choice([0.0, 1.0, -2.0]), rng.choice([0.0, 1.0, 0.7]) or 1.0))
+                if rng.random() < 0.5:
+                    ops.append(("M", round(rng.uniform(-2, 2), 2) or 1.0, round(rng.uniform(-2, 2), 2), round(rng.uniform(-2, 2), 2)))
+                else:
+                    ops.append(("M", rng.choice([1.0, 0.0, 0.3]), rng.choice([0.0, 1.0, -2.0]), rng.choice([0.0, 1.0, 0.7]) or 1.0))
             elif k == "X":
                 while True:
                     m = [rng.uniform(-2, 2) for _ in range(12)]
@@ -479,14 +527,13 @@ def geo_cases(rng, cx):
         add("SPH %s %d" % (fmt(r), seg), (lambda r: lambda p: p[0] ** 2 + p[1] ** 2 + p[2] ** 2 < r * r)(r), band,
             rand_ops() if rng.random() < 0.5 else (), tag="sphere", size=r)
     # --- cylinder / frustum / cones
-    for _ in range(cx.pick(8, 30)):
+    cyl_strata = [(r, c) for r in ("apexbottom", "apextop", "frustum_up", "frustum_down", "neg", "equal") for c in (0, 1)]
+    for k in range(cx.pick(14, 40)):
         h = round(rng.uniform(0.5, 3), 2)
-        rl = rng.choice([1.0, 0.0, round(rng.uniform(0.2, 2), 2)])
-        rh = rng.choice([-1.0, 0.0, rl, round(rng.uniform(0.2, 2), 2)])
-        if rl == 0.0 and rh <= 0.0:
-            rh = 1.0
-        seg = rng.choice([0, 3, 4, 7, 12, 16])
-        center = rng.randrange(2)
+        kind, center = cyl_strata[k] if k < len(cyl_strata) else (rng.choice(["apexbottom", "apextop", "frustum_up", "frustum_down", "neg", "equal"]), rng.randrange(2))
+        a_, b_ = sorted([round(rng.uniform(0.2, 1.0), 2), round(rng.uniform(1.1, 2.2), 2)])
+        rl, rh = {"apexbottom": (0.0, b_), "apextop": (b_, 0.0), "frustum_up": (a_, b_), "frustum_down": (b_, a_), "neg": (a_, -1.0), "equal": (b_, b_)}[kind]
+        seg = rng.choice([0, 3, 4, 5, 7, 12, 16])
         rhe = rh if rh >= 0 else rl
         n = seg if seg > 2 else model_circ(*py_circ(max(rl, rhe)))
         z0 = -h / 2 if center else 0.0
@@ -501,25 +548,88 @@ def geo_cases(rng, cx):
             rho = math.hypot(p[0], p[1])
             return rho * math.cos(th - math.pi / n) < R * math.cos(math.pi / n)
         add("CYL %s %s %s %d %d" % (fmt(h), fmt(rl), fmt(rh), seg, center), pred, 1e-9 * max(h, rl, rhe),
-            rand_ops() if rng.random() < 0.5 else (), vol=None, tag="cylinder" if rl and rhe else "cone", size=max(h, rl, rhe))
-    # --- extrude
-    for _ in range(cx.pick(8, 30)):
+            rand_ops() if rng.random() < 0.4 else (), vol=None, tag=("cylinder_" if rl and rhe else "cone_") + kind, size=max(h, rl, rhe))
+        ring = [(math.cos(2 * math.pi * i / n), math.sin(2 * math.pi * i / n)) for i in range(n)]
+        C[-1]["verts"] = ([(rl * x, rl * y, z0) for x, y in ring] if rl else [(0.0, 0.0, z0)]) + \
+                         ([(rhe * x, rhe * y, z0 + h) for x, y in ring] if rhe else [(0.0, 0.0, z0 + h)])
+    # --- extrude: (twist, scaleTop.x, scaleTop.y, nDivisions, height) drawn JOINTLY; documented semantics
+    # (src/constructors.cpp doc comment: "Note that scale is applied after twist"): the vertex of level i is
+    #   S(alpha) * R(alpha*twist) * p,  z = height*alpha,  alpha = i/(nDivisions+1),  S = diag(lerp(1, max(scaleTop,0), alpha))
+    strata = [("tw", "aniso"), ("tw", "aniso"), ("tw", "uni"), ("0", "aniso"), ("0", "one"), ("tw", "cone"), ("tw", "zerox"), ("tw", "zeroy"),
+              ("tw", "neg"), ("0", "cone")]
+    for k in range(cx.pick(14, 60)):
+        st = strata[k] if k < len(strata) else (rng.choice(["tw", "tw", "0"]), rng.choice(["aniso", "aniso", "uni", "one", "cone", "zerox", "zeroy"]))
         n = rng.randrange(3, 9)
-        poly = star(rng, n, 2.0, rng.choice([2.0, 1.0, 1.4]))
+        polys = [star(rng, n, 2.0, rng.choice([2.0, 1.0, 1.4]))]
+        if rng.random() < 0.25:
+            polys.append(star(rng, rng.randrange(3, 6), 0.8, 0.5, cx=5.0, cy=1.0))
+        if rng.random() < 0.2:
+            polys = [[(-1.0, -0.5), (1.0, -0.5), (1.0, 0.5), (-1.0, 0.5)]]
         h = round(rng.uniform(0.5, 3), 2)
-        nd = rng.randrange(0, 5)
-        twist = rng.choice([0.0, 0.0, 20.0, 60.0, -30.0])
-        sx = rng.choice([1.0, 1.0, 0.5, 0.0, -1.0, 1.5])
-        sy = sx if rng.random() < 0.7 else rng.choice([1.0, 0.5, 0.0])
+        nd = rng.randrange(0, 7)
+        twist = 0.0 if st[0] == "0" else rng.choice([90.0, -90.0, 45.0, 180.0, round(rng.uniform(-200, 200), 1)])
+        u, v = round(rng.uniform(0.3, 2.2), 2), round(rng.uniform(0.3, 2.2), 2)
+        sx, sy = {"aniso": (u, v if v != u else u + 0.5), "uni": (u, u), "one": (1.0, 1.0), "cone": (0.0, rng.choice([0.0, -2.0])),
+                  "zerox": (0.0, v), "zeroy": (u, 0.0), "neg": (-1.0, v)}[st[1]]
         ex, ey = max(sx, 0.0), max(sy, 0.0)
         d = nd + 1
-        Rmax = max(math.hypot(x, y) for x, y in poly) * max(1.0, ex, ey)
-        Emax = max(math.hypot(poly[i][0] - poly[i - 1][0], poly[i][1] - poly[i - 1][1]) for i in range(n)) * max(1.0, ex, ey)
+        cone = ex == 0.0 and ey == 0.0
+        levels, verts = [], []
+        for i in range(d + 1):
+            al = i / float(d)
+            ph = math.radians(al * twist)
+            c_, s_ = math.cos(ph), math.sin(ph)
+            if (al * twist) % 90 == 0:
+                q = int((al * twist) // 90) % 4
+                c_, s_ = [1.0, 0.0, -1.0, 0.0][q], [0.0, 1.0, 0.0, -1.0][q]
+            a0, a1 = 1 + (ex - 1) * al, 1 + (ey - 1) * al
+            lev = [[(a0 * (c_ * x - s_ * y), a1 * (s_ * x + c_ * y)) for x, y in pl] for pl in polys]
+            levels.append(lev)
+            if i == d and cone:
+                verts += [(0.0, 0.0, h)] * len(polys)
+            else:
+                verts += [(x, y, h * al) for pl in lev for x, y in pl]
+        allp = [q for lev in levels for pl in lev for q in pl]
+        Rmax = max(math.hypot(x, y) for x, y in allp)
+        Emax = max(math.hypot(pl[i][0] - pl[i - 1][0], pl[i][1] - pl[i - 1][1]) for lev in levels for pl in lev for i in range(len(pl)))
+        Dmax = max([0.0] + [math.hypot(levels[i + 1][a][b][0] - levels[i][a][b][0], levels[i + 1][a][b][1] - levels[i][a][b][1])
+                            for i in range(d) for a in range(len(polys)) for b in range(len(polys[a]))])
         dphi = abs(math.radians(twist)) / d
-        ds = (abs(ex - ey) / d) if (ex != ey or twist != 0.0) else 0.0
+        ds = (max(abs(ex - 1), abs(ey - 1)) / d) if (ex != ey or twist != 0.0) else 0.0
         band = 2 * (Rmax * dphi * dphi / 4 + Emax * ((dphi if twist else 0.0) + ds) / 2) + 1e-9 * Rmax
+        # slices just above / below every division level: the cross-section there is the level polygon up to t*(edge + displacement)
+        tt = 1.0 / 64
+        band2 = 1.5 * tt * (Emax + Dmax) + 1e-9 * Rmax
+        extra = []
+        for i in range(d + 1):
+            if i == d and cone:
+                continue
+            for sgn in (1, -1):
+                if (i == 0 and sgn < 0) or (i == d and sgn > 0):
+                    continue
+                z = h * (i / float(d)) + sgn * tt * h / d
+                lev = levels[i]
+                xs_ = [x for pl in lev for x, _ in pl]
+                ys_ = [y for pl in lev for _, y in pl]
+                if any(min(max(x for x, _ in pl) - min(x for x, _ in pl), max(y for _, y in pl) - min(y for _, y in pl)) < 8 * band2 for pl in lev):
+                    continue      # (nearly) collapsed level polygon: the 2-D robustness test cannot see a sliver
+                got = 0
+                for _t in range(40):
+                    if got >= 3:
+                        break
+                    x = round(rng.uniform(min(xs_) - 0.2, max(xs_) + 0.2) * 256) / 256
+                    y = round(rng.uniform(min(ys_) - 0.2, max(ys_) + 0.2) * 256) / 256
+                    ins = sum(pip(pl, x, y) for pl in lev) % 2 == 1
+                    ok = True
+                    for f in (1.0, 0.5, 0.25, 0.1):
+                        for dx, dy in ((1, 0), (-1, 0), (0, 1), (0, -1), (.7, .7), (-.7, .7), (.7, -.7), (-.7, -.7)):
+                            if (sum(pip(pl, x + f * band2 * dx, y + f * band2 * dy) for pl in lev) % 2 == 1) != ins:
+                                ok = False
+                    if ok:
+                        extra.append(((x, y, z), 1 if ins else 0))
+                        got += 1
 
-        def pred(p, poly=poly, h=h, twist=twist, ex=ex, ey=ey):
+        def pred(p, polys=polys, h=h, twist=twist, ex=ex, ey=ey):
             a = p[2] / h
             if not (0 < a < 1):
                 return False
@@ -528,22 +638,28 @@ def geo_cases(rng, cx):
                 return False
             x, y = p[0] / s0, p[1] / s1
             ph = -math.radians(twist * a)
-            return pip(poly, x * math.cos(ph) - y * math.sin(ph), x * math.sin(ph) + y * math.cos(ph))
-        add("EXTR %s %d %s %s %s %s" % (fmt(h), nd, fmt(twist), fmt(sx), fmt(sy), polys_text([poly])), pred, band,
-            rand_ops() if rng.random() < 0.3 else (), tag="extrude" + ("_twist" if twist else "") + ("_cone" if ex == 0 and ey == 0 else ""), size=Rmax)
-    # --- revolve
-    for _ in range(cx.pick(8, 30)):
-        kind = rng.randrange(3)
-        if kind == 0:
+            return sum(pip(pl, x * math.cos(ph) - y * math.sin(ph), x * math.sin(ph) + y * math.cos(ph)) for pl in polys) % 2 == 1
+        ops = rand_ops() if rng.random() < 0.25 else ()
+        add("EXTR %s %d %s %s %s %s" % (fmt(h), nd, fmt(twist), fmt(sx), fmt(sy), polys_text(polys)), pred, band, ops,
+            tag="extrude" + ("_twist" if twist else "") + ("_aniso" if ex != ey else "") + ("_cone" if cone else ""), size=max(Rmax, 1.0))
+        C[-1]["verts"] = verts
+        C[-1]["extra"] = extra if not ops else []
+        C[-1]["nogeneral"] = dphi > 0.7 or band > 0.5 * Rmax
+    # --- revolve: (polygon kind incl. axis-crossing) x (full / partial angle) x (default / explicit segments) drawn jointly
+    rev_strata = [(pk, dg, sg) for pk in ("zigzag", "crossing", "offaxis") for dg in ("full", "partial") for sg in ("default", "explicit")]
+    for k in range(cx.pick(14, 48)):
+        pk, dg, sg = rev_strata[k] if k < len(rev_strata) else (rng.choice(["zigzag", "crossing", "offaxis"]), rng.choice(["full", "partial"]),
+                                                                rng.choice(["default", "explicit"]))
+        if pk == "zigzag":
             poly = zigzag([rng.random() < 0.5 for _ in range(rng.randrange(1, 5))], rng)
         else:
-            poly = star(rng, rng.randrange(3, 8), 1.5, 1.0, cx=rng.choice([2.0, 0.5, 0.0, -0.3]))
-        seg = rng.choice([0, 3, 4, 6, 9, 12])
-        deg = rng.choice([360.0, 360.0, 500.0, 180.0, 90.0, 270.0, 45.0])
+            poly = star(rng, rng.randrange(3, 8), 1.5, 1.0, cx=rng.choice([0.5, 0.0, -0.3]) if pk == "crossing" else rng.choice([2.0, 2.5]))
+        seg = 0 if sg == "default" else rng.choice([3, 4, 5, 6, 9, 12])
+        deg = rng.choice([360.0, 500.0]) if dg == "full" else rng.choice([180.0, 90.0, 270.0, 45.0, 10.0, round(rng.uniform(5, 355), 1)])
         de = min(deg, 360.0)
         radius = max([0.0] + [x for x, _ in poly])
-        nd = seg if seg > 2 else int(model_circ(*py_circ(radius)) * de / 360)
-        if nd < 1 or radius <= 0:
+        nd = seg if seg > 2 else max(1, int(model_circ(*py_circ(radius)) * de / 360))
+        if radius <= 0:
             continue
         dphi = math.radians(de) / nd
         band = 1.5 * radius * (1 - math.cos(dphi / 2)) + 1e-9 * max(radius, 1.0)
@@ -556,7 +672,18 @@ def geo_cases(rng, cx):
                     return False
             return pip(poly, rho, p[2])
         add("REVO %d %s %s" % (seg, fmt(deg), polys_text([poly])), pred, band, rand_ops() if rng.random() < 0.3 else (),
-            tag="revolve" + ("_partial" if de < 360 else "") + ("_crossing" if min(x for x, _ in poly) < 0 else ""), size=max(radius, 3.0))
+            tag="revolve" + ("_partial" if de < 360 else "") + ("_crossing" if min(x for x, _ in poly) < 0 else "") + ("_defaultseg" if seg == 0 else ""),
+            size=max(radius, 3.0))
+        cl = clip_poly(poly)
+        nsl = nd if de == 360.0 else nd + 1
+        ev = []
+        for x, y in cl:
+            for sl in range(nsl):
+                if sl == 0 or x > 0:
+                    ph = math.radians(sl * (de / nd))
+                    ev.append((x * math.cos(ph), x * math.sin(ph), y))
+        C[-1]["verts"] = ev
+        C[-1]["nogeneral"] = dphi > 1.3
     # --- level sets
     for _ in range(cx.pick(5, 16)):
         k = rng.randrange(4)
@@ -618,7 +745,7 @@ def run_geo(cx, exe, drv, rng):
         elif l.startswith("LVLDEV"):
             dev[t[1]] = float.fromhex(t[2])
     wl, winfo = [], {}
-    dist, nontriv, npts = {}, 0, 0
+    dist, nontriv, npts, nvert = {}, 0, 0, 0
     for c, line in zip(cases, lines):
         g = geo.get(c["id"])
         replay = {"case": line}
@@ -645,6 +772,22 @@ def run_geo(cx, exe, drv, rng):
         if any(f is None for f in fr):
             cx.violation("non-finite-vertex", "output has a non-finite vertex: %s" % line[:200], replay)
             continue
+        # vertex level: every vertex of the constructor's mesh is the documented image of an input vertex (and vice versa)
+        bvs0 = mesh[(c["id"], "base")][0]
+        bfl = [struct.unpack("<d", struct.pack("<Q", u))[0] for u in bvs0]
+        bpts = [tuple(bfl[i:i + 3]) for i in range(0, len(bfl), 3)]
+        if c.get("verts") is not None and all(x == x for x in bfl):
+            tolv = 1e-12 * max(1.0, c["size"])
+            # every output vertex is (injectively) a documented image; all images are present, except that Revolve may
+            # drop axis vertices no triangle refers to (an axis vertex between two axis vertices)
+            miss, first = match_verts(bpts, c["verts"], tolv)
+            lost = len(c["verts"]) - len(bpts)
+            nvert += 1
+            if miss or (lost != 0 and not c["tag"].startswith("revolve")) or lost < 0:
+                cx.violation("vertices-differ-from-documented-" + c["tag"].split("_")[0],
+                             "%d of %d output vertices are not the documented image of an input vertex within %g (documented images: %d; first "
+                             "offending output vertex %r): %s" % (miss, len(bpts), tolv, len(c["verts"]), first, line[:160]),
+                             dict(replay, offending=first, documented=c["verts"][:40], output_vertices=bpts[:40]))
         # transform chain
         T = IDENT
         for o in c["ops"]:
@@ -653,6 +796,17 @@ def run_geo(cx, exe, drv, rng):
         band = c["band"] * max(1.0, fro) + 1e-9 * (1 + max(abs(x) for x in T[1]))
         pred = (lambda T, base: lambda p: base(inv_apply(T, p)))(T, c["pred"]) if c["ops"] else c["pred"]
         xs = [float(f) for f in fr]
+        if c["ops"] and all(x == x for x in bfl):
+            # the transformed mesh's vertices are the documented point map (ops applied in call order) of the base vertices
+            fpts = [tuple(xs[i:i + 3]) for i in range(0, len(xs), 3)]
+            img = [tuple(sum(T[0][r][k] * q[k] for k in range(3)) + T[1][r] for r in range(3)) for q in bpts]
+            tolt = 1e-11 * max(1.0, fro, max(abs(x) for x in T[1])) * max(1.0, c["size"])
+            miss, first = match_verts(img, fpts, tolt)
+            nvert += 1
+            if miss or len(fpts) != len(img):
+                cx.violation("transform-vertices-differ-from-point-map",
+                             "%d of %d base vertices are not mapped to an output vertex by the documented composition of %s (tol %g, first %r): %s" % (
+                                 miss, len(img), [o[0] for o in c["ops"]], tolt, first, line[:160]), dict(replay, missing=first))
         lo = [min(xs[i::3]) for i in range(3)]
         hi = [max(xs[i::3]) for i in range(3)]
         ext = max(hi[i] - lo[i] for i in range(3)) or 1.0
@@ -660,6 +814,12 @@ def run_geo(cx, exe, drv, rng):
         pts, exp = [], []
         tries = 0
         want = cx.pick(40, 120)
+        if c.get("nogeneral"):
+            want = 0
+        for q, e in c.get("extra") or []:
+            pts.append(q)
+            exp.append(e)
+            want += 1
         while len(pts) < want and tries < want * 12:
             tries += 1
             p = tuple(round((lo[i] - 0.1 * ext + rng.random() * 1.2 * (hi[i] - lo[i] + 1e-12) ) / step) * step for i in range(3))
@@ -726,7 +886,7 @@ def run_geo(cx, exe, drv, rng):
         elif any(exp) and not all(exp):
             nontriv += 1
         vol = Fraction(vol6, 6 * den ** 3)
-        if vol <= 0:
+        if vol <= 0 and not c.get("nogeneral"):   # (large twist per division may self-intersect: documented as the caller's responsibility)
             cx.violation("volume-not-positive", "signed volume %s <= 0 (orientation not outward): %s" % (float(vol), line[:160]), replay)
         if c["ops"] and (cid + "_b") in res:
             bvol = Fraction(res[cid + "_b"][0], 6 * winfo[cid + "_b"] ** 3)
@@ -760,7 +920,7 @@ def run_geo(cx, exe, drv, rng):
                              {"case": line, "got": [[struct.unpack('<d', struct.pack('<Q', u))[0] for u in p] for p in got][:8]})
             else:
                 nontriv += 1
-    cx.cov["geometry"] = {"cases": len(cases), "sample_points_classified": npts, "distribution": dist}
+    cx.cov["geometry"] = {"cases": len(cases), "sample_points_classified": npts, "vertex_level_checks": nvert, "distribution": dist}
     cx.sample({"case": lines[0][:300], "result": geo.get(cases[0]["id"])})
     return len(cases), nontriv
 
@@ -818,9 +978,9 @@ def run(cx):
     try:
         info = tr.emit(vp.REPO, os.path.join(vp.COQ, "Gen", "C17Shapes.v"))
         cx.cov["translated_tables"] = info
-        cx.obligation("translate:c17_shapes (impl.cpp shape tables, sdf.cpp tetTri0/tetTri1)", True)
+        cx.obligation("translate:c17_shapes (impl.cpp shape tables, sdf.cpp tetTri0/tetTri1, Extrude 2x2 map)", True)
     except Exception as e:
-        cx.obligation("translate:c17_shapes (impl.cpp shape tables, sdf.cpp tetTri0/tetTri1)", False, "translator failed: %s" % e)
+        cx.obligation("translate:c17_shapes (impl.cpp shape tables, sdf.cpp tetTri0/tetTri1, Extrude 2x2 map)", False, "translator failed: %s" % e)
     cx.prove()
     mls = vp.coq_extract("ExtractC17", ["c17_model.ml"])
     drv = vp.ocaml_build("c17_driver", mls + [os.path.join(vp.ROOT, "extract/c17_driver.ml")])
